@@ -129,7 +129,7 @@ def gen_scenario(rng):
     """hand-shaped layouts the document grammar does not produce: one dynamic node under two paths (YAML anchor / alias), and !eval
     consumers that reach dynamic nodes by (nested) name.  Returns entries [(key, text)] per layout, probes and the calls expected."""
     n = rng.randint(1, 9)
-    kind = rng.choice(['alias', 'alias_nested', 'eval_top', 'eval_partial', 'eval_partial_deep'])
+    kind = rng.choice(['alias', 'alias_nested', 'eval_top', 'eval_partial', 'eval_partial_deep', 'eval_through'])
     if kind in ('alias', 'alias_nested'):
         pair = [('a', f'!call:vmod.f {{u: {n}}}'), ('b', None)]      # the later one of the two becomes the alias
         rest = [('r', '!xref P.a'), ('r2', '!xref P.b'), ('user', '!call:vmod.g {p: !xref P.a, q: !xref P.b}'), ('l', '[!xref P.b, !xref P.a]')]
@@ -155,6 +155,17 @@ def gen_scenario(rng):
             layouts.append('{box: ' + body + ', z: 0}' if nested else body)
         probes = [p.replace('C.', 'cfg.box.' if nested else 'cfg.') for p in probes]
         return dict(kind=kind, layouts=layouts, probes=probes, expect=sorted(expect))
+    if kind == 'eval_through':
+        # a reference THROUGH a mapping (to a nested entry) and a name lookup of the mapping itself (repaired defect 4628d78)
+        ents = [('r', '!xref c.d.e'), ('q', '!eval c'), ('c', '{d: {e: !call:vmod.f {u: %d}}, f: 2}' % n), ('q2', '!xref c')]
+        probes = ['cfg.q is cfg.c', 'cfg.q2 is cfg.c', 'cfg.r is cfg.c.d.e', 'type(cfg.q).__name__ == "Bunch"', 'all(type(k) is str for k in cfg.q.keys())']
+        layouts = []
+        for _ in range(3):
+            e2 = list(ents)
+            rng.shuffle(e2)
+            layouts.append('{' + ', '.join(f'{k}: {v}' for k, v in e2) + '}')
+        layouts.append('{' + ', '.join(f'{k}: {v}' for k, v in ents) + '}')
+        return dict(kind=kind, layouts=layouts, probes=probes, expect=['vmod.f'])
     if kind == 'eval_top':
         ents = [('x', f'!call:vmod.f {{u: {n}}}'), ('e', '!eval "x"'), ('r', '!xref x'), ('g', '!call:vmod.g {p: !xref x, q: !xref e}')]
         probes = ['cfg.e is cfg.x', 'cfg.r is cfg.x', "cfg.g.kwargs['p'] is cfg.x", "cfg.g.kwargs['q'] is cfg.x"]
